@@ -17,6 +17,14 @@ import (
 func newExec(c *core.Ctx) *absint.Exec {
 	x := absint.New(c.P.SSA, c.P.InScope)
 	x.FuncVars = core.FuncVars
+	x.ErrVars = core.ErrVars
+	x.NilVars = core.NilFuncVars
+	x.SoleMethod = func(cc *ssa.CallCommon) *ssa.Function {
+		if cc.IsInvoke() {
+			return core.Callee(cc)
+		}
+		return nil
+	}
 	x.FuncField = func(ptrT types.Type, i int) *ssa.Function {
 		if k, ok := core.FuncFieldKey(ptrT, i); ok {
 			return core.FuncFields[k]
